@@ -582,15 +582,25 @@ impl Woz2 {
     /// Get a reference to the track bits
     fn get_trk_bits_ref(&self,track: u8) -> Result<&[u8],img::NibbleError> {
         let trk = self.get_trk_ref(track)?;
-        let begin = u16::from_le_bytes(trk.starting_block) as usize*512 - self.track_bits_offset;
-        let end = begin + u16::from_le_bytes(trk.block_count) as usize*512;
+        let start = u16::from_le_bytes(trk.starting_block) as usize*512;
+        let end = start + u16::from_le_bytes(trk.block_count) as usize*512;
+        if start < self.track_bits_offset || end - self.track_bits_offset > self.trks.bits.len() {
+            return Err(img::NibbleError::BadTrack);
+        }
+        let begin = start - self.track_bits_offset;
+        let end = end - self.track_bits_offset;
         Ok(&self.trks.bits[begin..end])
     }
     /// Get a mutable reference to the track bits
     fn get_trk_bits_mut(&mut self,track: u8) -> Result<&mut [u8],img::NibbleError> {
         let trk = self.get_trk_ref(track)?;
-        let begin = u16::from_le_bytes(trk.starting_block) as usize*512 - self.track_bits_offset;
-        let end = begin + u16::from_le_bytes(trk.block_count) as usize*512;
+        let start = u16::from_le_bytes(trk.starting_block) as usize*512;
+        let end = start + u16::from_le_bytes(trk.block_count) as usize*512;
+        if start < self.track_bits_offset || end - self.track_bits_offset > self.trks.bits.len() {
+            return Err(img::NibbleError::BadTrack);
+        }
+        let begin = start - self.track_bits_offset;
+        let end = end - self.track_bits_offset;
         Ok(&mut self.trks.bits[begin..end])
     }
     /// Create a lightweight trait object to read/write the bits.  The nibble format will be
@@ -950,7 +960,7 @@ impl img::DiskImage for Woz2 {
             putHex!(val,key_path,woz2,self.info.flux_block);
             putHex!(val,key_path,woz2,self.info.largest_flux_track);
             
-            if key_path[1]=="meta" {
+            if key_path.len()>1 && key_path[1]=="meta" {
                 if key_path.len()!=3 {
                     error!("wrong depth in WOZ key path {:?}",key_path);
                     return Err(Box::new(img::Error::MetadataMismatch));
